@@ -93,7 +93,7 @@ func c10World(t *testing.T, r *simcore.Run) any {
 		mode = "sampled"
 		for k := 0; k < c10PerRun; k++ {
 			c := mcase{onResp: tp.Bool(1, 2, "onresp")}
-			switch tp.Pick([]uint64{6, 4, 1, 1, 1, 2, 2, 3, 1}, "kind") {
+			switch tp.Pick([]uint64{6, 4, 1, 1, 1, 2, 2, 3, 1, 2}, "kind") {
 			case 0:
 				c.kind, c.bit = "bit", tp.Intn(c10ReqLen*8, "bit")
 			case 1:
@@ -110,6 +110,9 @@ func c10World(t *testing.T, r *simcore.Run) any {
 				c.kind, c.onResp = "genuine+trailing-cookie", true
 			case 8:
 				c.kind, c.onResp = "stripped", true
+			case 9:
+				c.kind, c.onResp = "zero-tail-cut", true
+				c.val = 1 + tp.Intn(2, "ntail")
 			case 7:
 				c.kind, c.onResp = "resealed-uid", true
 				c.val = tp.Intn(5, "uidvariant")
@@ -331,6 +334,33 @@ func c10World(t *testing.T, r *simcore.Run) any {
 					must = m1 && m2
 					desc = fmt.Sprintf("response length word at %d: %d -> %d", off, old, nv)
 					return mut, desc, true
+				case "zero-tail-cut":
+					// a correctly sealed response whose ciphertext happens to end in zero bytes, with
+					// those bytes cut off the datagram: the authenticator field then runs past the end
+					// of the packet, which is not the packet that was sealed
+					key := tr.fetcher().VerifData().S2cKey
+					pt, ok := ntsOpenRaw(g, key)
+					if !ok {
+						skip = true
+						return nil, "", false
+					}
+					for no := 0; no < 70000; no++ {
+						cand := ntsResealNonce(g, uidOf(g), pt, key, no)
+						z := 0
+						for z < c.val && cand[len(cand)-1-z] == 0 {
+							z++
+						}
+						if z == c.val {
+							desc = fmt.Sprintf("a correctly sealed response whose last %d ciphertext byte(s) are zero, with them cut off", c.val)
+							r.Probe("zero-tail-cut")
+							return cand[:len(cand)-c.val], desc, true
+						}
+						if c.val > 1 && no > 3000 {
+							break // two zero bytes: give up after a while
+						}
+					}
+					skip = true
+					return nil, "", false
 				case "stripped":
 					desc = "the genuine response without its NTS fields (bare 48-byte NTP header)"
 					return append([]byte(nil), g[:48]...), desc, true
